@@ -60,6 +60,15 @@ pub fn c10_native<G: AffineRepr>(case: &IppCase, seed: u64, model: HashMap<Strin
     out.push(("exactly k rounds".into(), L.len() == case.k && R.len() == case.k));
     let mut vt = Transcript::new(b"ipp-verif");
     let res = proof.verify(n, &mut vt, gf.iter(), hf.iter(), &P, &Q, &Gs, &Hs);
+    {
+        let (mut fa, mut fb) = ([0u8; 32], [0u8; 32]);
+        let (mut p2, mut v2) = (pt.clone(), vt.clone());
+        p2.challenge_bytes(b"follow-up", &mut fa);
+        v2.challenge_bytes(b"follow-up", &mut fb);
+        if res.is_ok() {
+            out.push(("after create / verify the two transcripts give the same follow-up challenge".into(), fa == fb));
+        }
+    }
     // reference verdict by explicit folding with the same challenges
     let mut ot = Transcript::new(b"ipp-verif");
     let us: Vec<G::ScalarField> = {
@@ -122,15 +131,50 @@ pub fn c10_native<G: AffineRepr>(case: &IppCase, seed: u64, model: HashMap<Strin
     out
 }
 
-pub fn c13_native<G: AffineRepr>(variant: &str, seed: u64, model: HashMap<String, String>) -> Checks {
+/// s * P by plain double-and-add on the group law only (no scalar-multiplication routine of the curve
+/// configuration is involved); the identity base is handled explicitly.
+pub fn ref_mul<G: AffineRepr>(P: &G, s: &G::ScalarField) -> G::Group {
+    use ark_ff::{BigInteger, PrimeField};
+    let mut acc = G::Group::zero();
+    if P.is_zero() {
+        return acc;
+    }
+    let base: G::Group = P.into_group();
+    for bit in s.into_bigint().to_bits_be() {
+        acc = acc + acc;
+        if bit {
+            acc = acc + base;
+        }
+    }
+    acc
+}
+
+/// the Pedersen bases of a C13 variant
+pub fn c13_bases<G: AffineRepr>(variant: &str, rng: &mut rand_chacha::ChaChaRng, torsion: &Option<Vec<G>>) -> Option<PedersenGens<G>> {
+    let mut rnd = |rng: &mut rand_chacha::ChaChaRng| -> G { G::Group::rand(rng).into_affine() };
+    Some(if variant.starts_with("default_bases") {
+        PedersenGens::<G>::default()
+    } else if variant.starts_with("identity_blinding_base") {
+        PedersenGens { B: rnd(rng), B_blinding: G::zero() }
+    } else if variant.starts_with("identity_value_base") {
+        PedersenGens { B: G::zero(), B_blinding: rnd(rng) }
+    } else if variant.starts_with("torsion_bases") {
+        // legal on-curve bases with a small-order component (cofactor curves only)
+        let t = torsion.as_ref()?;
+        PedersenGens { B: (rnd(rng).into_group() + t[0].into_group()).into_affine(), B_blinding: (rnd(rng).into_group() + t[t.len() - 1].into_group()).into_affine() }
+    } else {
+        PedersenGens { B: rnd(rng), B_blinding: rnd(rng) }
+    })
+}
+
+pub fn c13_native<G: AffineRepr>(variant: &str, seed: u64, model: HashMap<String, String>, torsion: Option<Vec<G>>) -> Checks {
     use ark_bulletproofs::r1cs::Prover;
     use core::str::FromStr;
     let mut out: Checks = vec![];
     let mut rng = rand_chacha::ChaChaRng::seed_from_u64(seed ^ 0xc13);
-    let pc = if variant.starts_with("default_bases") {
-        PedersenGens::<G>::default()
-    } else {
-        PedersenGens { B: G::Group::rand(&mut rng).into_affine(), B_blinding: G::Group::rand(&mut rng).into_affine() }
+    let pc = match c13_bases::<G>(variant, &mut rng, &torsion) {
+        Some(pc) => pc,
+        None => return out,
     };
     let mut vals = PlainVals::<G::ScalarField>::new(model, seed);
     let lit = |s: &str| -> G::ScalarField {
@@ -145,11 +189,15 @@ pub fn c13_native<G: AffineRepr>(variant: &str, seed: u64, model: HashMap<String
         vec![[vals.fresh("v"), vals.fresh("r"), vals.fresh("v"), vals.fresh("r"), vals.fresh("k")]]
     };
     for (i, [v1, r1, v2, r2, k]) in sets.into_iter().enumerate() {
-        let refc = |v: G::ScalarField, r: G::ScalarField| -> G::Group { pc.B * v + pc.B_blinding * r };
+        let refc = |v: G::ScalarField, r: G::ScalarField| -> G::Group { ref_mul(&pc.B, &v) + ref_mul(&pc.B_blinding, &r) };
         out.push((format!("set{}: commit(v1,r1) = v1*B + r1*Bblind", i), pc.commit(v1, r1).into_group() == refc(v1, r1)));
         out.push((format!("set{}: commit(v2,r2) = v2*B + r2*Bblind", i), pc.commit(v2, r2).into_group() == refc(v2, r2)));
-        out.push((format!("set{}: homomorphism", i), pc.commit(v1, r1).into_group() + pc.commit(v2, r2).into_group() == pc.commit(v1 + v2, r1 + r2).into_group()));
-        out.push((format!("set{}: scaling", i), pc.commit(v1, r1).into_group() * k == pc.commit(k * v1, k * r1).into_group()));
+        if !variant.starts_with("torsion") {
+            out.push((format!("set{}: homomorphism", i), pc.commit(v1, r1).into_group() + pc.commit(v2, r2).into_group() == pc.commit(v1 + v2, r1 + r2).into_group()));
+        }
+        if !variant.starts_with("torsion") {
+            out.push((format!("set{}: scaling", i), pc.commit(v1, r1).into_group() * k == pc.commit(k * v1, k * r1).into_group()));
+        }
         let mut pt = Transcript::new(b"c13");
         let mut prover = Prover::new(&pc, &mut pt);
         let (V, _) = prover.commit(v1, r1);
@@ -290,6 +338,26 @@ pub fn c07_native<G: AffineRepr + 'static>(case: &crate::scen_c07::BatchCase, se
         let ok = batch_verify(&mut rng, insts, &pc, &bp).is_ok();
         out.push((format!("batch of {} copies of one proof with correlated offsets on the final scalar is rejected", kk), !ok));
     }
+    // (c) long batches: 9 and 17 copies of the first member; all honest is accepted, one altered copy at the
+    // first, a middle or the last position is rejected
+    if indiv.first().copied().unwrap_or(false) {
+        let (pts, scs, ipp) = proofs[0].verif_parts();
+        let (l, r, a, b) = ipp.verif_parts();
+        let altered = R1CSProof::verif_from_parts(pts, scs, InnerProductProof::verif_from_parts(l.to_vec(), r.to_vec(), a, b + G::ScalarField::from(5u64)));
+        for kk in [9usize, 17] {
+            for bad in [None, Some(0usize), Some(kk / 2), Some(kk - 1)] {
+                let shrs0: Vec<_> = (0..kk).map(|_| fork_for_verifier(&shapes[0], &shrs[0])).collect();
+                let mut ts: Vec<Transcript> = (0..kk).map(|_| new_verifier_transcript(&shapes[0])).collect();
+                let mut insts = vec![];
+                for (i, vt) in ts.iter_mut().enumerate() {
+                    insts.push((build_verifier(&shapes[0], &shrs0[i], vt), if Some(i) == bad { &altered } else { &proofs[0] }));
+                }
+                let mut rng = rand_chacha::ChaChaRng::seed_from_u64(seed ^ 0xa1fa);
+                let ok = batch_verify(&mut rng, insts, &pc, &bp).is_ok();
+                out.push((format!("batch of {} copies, altered member at {:?}: accepted = {}", kk, bad, ok), ok == bad.is_none()));
+            }
+        }
+    }
     out
 }
 
@@ -381,6 +449,11 @@ pub fn c09_native<G: AffineRepr + 'static>(shape: &crate::r1cs::Shape, seed: u64
     }
     out.push((format!("RNG rekeyed once per commitment with its blinding factor ({} rekeys, {} commitments)", rekeys.len(), m), keyed));
     out.push(("RNG finalized with the caller's randomness".into(), rops.iter().filter(|e| e.op == "finalize" && e.data.len() == 32).count() == 1));
+    {
+        let ext = crate::r1cs::ext_log();
+        let fin: Vec<&&merlin::vlog::Event> = rops.iter().filter(|e| e.op == "finalize").collect();
+        out.push((format!("the finalisation bytes are the first 32 bytes handed out by the caller's RNG ({} drawn)", ext.len()), fin.len() == 1 && ext.len() >= 32 && fin[0].data == ext[..32].to_vec()));
+    }
     let stream: Vec<u8> = rops.iter().filter(|e| e.op == "rng_fill").flat_map(|e| e.data.clone()).collect();
     let mut rr = ReplayRng { bytes: stream, pos: 0, overrun: false };
     let mut draw = |k: usize| -> Vec<G::ScalarField> { (0..k).map(|_| G::ScalarField::rand(&mut rr)).collect() };
